@@ -65,7 +65,7 @@ func propConfigs() map[string]*PropConfig {
 	add(&PropConfig{ID: "C26", Prefix: "VH_C26_", StrBytes: 24, Sets: []HarnessSet{hfiles("base", "base/c26.go")},
 		Thorough: func(n string) bool { return strings.Contains(n, "_T_") },
 		Explain: "the real base.ReadMultiline runs on one input line = concrete prefix (each lexical mode and bracket depth) + symbolic bytes (all 256 values) + concrete suffix; the oracle is a reference lexical automaton over the same bytes"})
-	add(&PropConfig{ID: "C04", Prefix: "VH_C04_", Sets: []HarnessSet{hfiles("base/untyped", "untyped/lib_untyped.go", "untyped/c04_convert_gen.go", "untyped/c04.go")},
+	add(&PropConfig{ID: "C04", Prefix: "VH_C04_", Sets: []HarnessSet{hfiles("base/untyped", "untyped/lib_untyped.go", "untyped/c04_convert_gen.go", "untyped/c04.go"), hfiles("fast", fastLib, "fast/c04_binary.go")},
 		Explain: "the real untyped.ConvertLiteralCheckOverflow (with base/reflect.ConvertValue) and Lit.extractNumber / Lit.Convert are executed on symbolic constants; go/constant values are modelled as exact integers"})
 	add(&PropConfig{ID: "C03", Prefix: "VH_C03_", StrBytes: 8, Sets: []HarnessSet{hfiles("fast", fastLib, "fast/c03_gen.go")},
 		Explain: "the real Comp.convert is executed for every ordered pair of numeric basic kinds (non-constant operand) and a sample of constant operands; the returned closure / constant is compared with Go's conversion T(x) for all operand values for which the specification defines the result"})
